@@ -41,3 +41,8 @@ Record codec_ok {A} (c : codec A) : Prop := mkOk {
     gives the same value *)
 Definition stable {A} (c : codec A) : Prop :=
   forall bs x r r', dec c bs = Value x r -> fits c x = true -> dec c (enc c x ++ r') = Value x r'.
+
+(** what property C11 claims of one codec *)
+Definition c11_ok {A} (c : codec A) : Prop := rt_ok c /\ wf_ok c /\ size_ok c /\ stable c.
+(** what property C06 claims of one decoder *)
+Definition c06_ok {A} (c : codec A) : Prop := safe_ok c.
